@@ -89,6 +89,7 @@ def run_stream(job, seed, tier, tmpdir, deadline, chunk, results, wid, max_viols
                 return
             st = None
             viol = None
+            slow = None
             for line in r.stdout.splitlines():
                 if line.startswith("STATS "):
                     try:
@@ -97,10 +98,20 @@ def run_stream(job, seed, tier, tmpdir, deadline, chunk, results, wid, max_viols
                         pass
                 elif line.startswith("VIOL "):
                     viol = parse_viol(line)
+                elif line.startswith("SLOW "):
+                    slow = dict(kv.split("=", 1) for kv in line.split()[1:] if "=" in kv)
             if st:
                 with job.lock:
                     job.stats.append(st)
                 break
+            if slow and not viol and not st:
+                # a run that kept reaching hooks but used more real CPU time than the harness allows one run: it decides
+                # nothing (real time never produces a verdict); count it and go on with the next index
+                sr = int(slow.get("run", pos))
+                with job.lock:
+                    job.stats.append({"done": max(0, sr - pos), "abandoned_slow": 1})
+                pos = sr + 1
+                continue
             if viol:
                 viol["stderr"] = r.stderr[-2000:]
                 viol["batch_start"] = pos
@@ -330,7 +341,7 @@ def check_property(prop, tier, seed):
         # ---- aggregate ----
         agg = {"runs": 0, "steps": 0, "switches": 0, "preemptions": 0, "stalls": 0, "spins": 0, "rand_draws": 0,
                "clock_reads": 0, "clock_zero": 0, "clock_jumps": 0, "virt_ns": 0, "poisoned_stacks": 0,
-               "poisoned_results": 0, "switch_pairs_sum": 0, "drained": 0, "nontrivial_runs": 0}
+               "poisoned_results": 0, "switch_pairs_sum": 0, "drained": 0, "nontrivial_runs": 0, "tsc_reads": 0, "abandoned_slow": 0}
         sites, counters, strategies, workers_hist, per_job, extra = {}, {}, [0] * 8, {}, [], {}
         for j in jobs:
             jr = 0
@@ -339,7 +350,7 @@ def check_property(prop, tier, seed):
                 agg["runs"] += st["done"]
                 agg["nontrivial_runs"] += st.get("nontrivial", 0)
                 for k in ("steps", "switches", "preemptions", "stalls", "spins", "rand_draws", "clock_reads", "clock_zero",
-                          "clock_jumps", "virt_ns", "poisoned_stacks", "poisoned_results", "switch_pairs_sum", "drained"):
+                          "clock_jumps", "virt_ns", "poisoned_stacks", "poisoned_results", "switch_pairs_sum", "drained", "tsc_reads", "abandoned_slow"):
                     agg[k] += st.get(k, 0)
                 for k, v in st.get("sites", {}).items():
                     sites[k] = sites.get(k, 0) + v
@@ -526,6 +537,8 @@ def check_property(prop, tier, seed):
                                  "buggified_run_queue_trylock_failures": site_named.get("bug_wsq_trylock", 0), **counters},
                 "distinct_preemption_site_pairs_summed_over_runs": agg["switch_pairs_sum"],
                 "fair_drain_started_runs": agg["drained"],
+                "virtual_cycle_counter_reads": agg["tsc_reads"],
+                "runs_abandoned_for_real_cpu_time_without_verdict": agg["abandoned_slow"],
                 "strategies_hist": dict(zip(["uniform", "sticky", "pct", "stall", "round_robin"], strategies)),
                 "workers_hist": workers_hist,
                 "probe_hits": site_named,
